@@ -102,6 +102,23 @@ mutual
     | .cons _ e r => e.hasRef || r.hasRef
 end
 
+mutual
+  /-- what the parser guarantees about an expression tree: integer literals are
+  `int64` values (`IntExp.Value`), and the keys of a map / struct literal are
+  pairwise distinct (the literal is stored in a Go map) -/
+  def Exp.wf : Exp → Bool
+    | .int v => Num.inInt64 v
+    | .arr xs => xs.wf
+    | .map _ kvs => kvs.wf && decide ((kvs.toList.map Prod.fst).Nodup)
+    | _ => true
+  def Exps.wf : Exps → Bool
+    | .nil => true
+    | .cons e r => e.wf && r.wf
+  def KVs.wf : KVs → Bool
+    | .nil => true
+    | .cons _ e r => e.wf && r.wf
+end
+
 /-- a binding: `id = e` or `id = split e` -/
 inductive Bind where
   | plain (e : Exp)
